@@ -5,7 +5,8 @@
 //! in-process cache cannot contaminate.
 
 use crate::ctx::{Acc, Ctx, Evidence, Tier};
-use crate::libapi::{self, LibOutcome};
+use crate::libapi::{self, Doc, LibOutcome};
+use oracle::parse::analyze;
 use crate::worker::{exe_for, run_isolated, CaseSet, Isolation, RESULTS};
 use jsonpath_rust::parser::model::JpQuery;
 use jsonpath_rust::query::queryable::Queryable;
@@ -447,6 +448,181 @@ pub fn run(ctx: &Ctx) -> Result<Evidence, String> {
         for h in st.1.iter() {
             acc.nontrivial(&h.to_le_bytes());
         }
+    }
+
+    // (b2) rejection storms: thousands of queries rejected in every way and at every nesting
+    // (by the grammar and by the hand-written checks behind it; inside parentheses, nested
+    // filters, function arguments), with valid probe queries re-evaluated in between - whatever
+    // a rejected query leaves behind on its thread must not change what a valid one returns
+    {
+        let bad = [
+            "@.a == 9007199254740993", "length(@.a)", "@. a == 1", "length (@.a) == 1", "count(1) == 1", "length(@.a, 1) == 1", "@.a == 01", "match(@.a, 'b') == true", "value(@.a)", "@.a ==", "@[9007199254740992] == 1", "@.a == 'x", "@['a\tb']", "@.a === 1", "$[1.5]", "@.a == -",
+            "@[?count(@.a)]", "@.a < value(@..a, 1)", "@.a == $[", "!@.a ==1 &&", "@[1:2:3:4]", "@.a == 1e", "search(@.a)", "@.a in [1]",
+        ];
+        let p50 = "(".repeat(50);
+        let q50 = ")".repeat(50);
+        let p200 = "(".repeat(200);
+        let q200 = ")".repeat(200);
+        let wrappers: Vec<(String, String)> = vec![
+            ("$[?".into(), "]".into()), ("$[?(".into(), ")]".into()), ("$[?((".into(), "))]".into()), (format!("$[?{}", p50), format!("{}]", q50)), (format!("$[?{}", p200), format!("{}]", q200)), ("$[?@[?".into(), "]]".into()), ("$[?@[?@[?@[?".into(), "]]]]".into()),
+            ("$[?count(@[?".into(), "]) > 0]".into()), ("$[?!(".into(), ")]".into()), ("$[?@.a && (".into(), ")]".into()), ("$..[?(".into(), ") || @.b]".into()), ("$[0, ?(".into(), ")]".into()),
+        ];
+        let mut rejected: Vec<String> = vec![];
+        for (pre, post) in &wrappers {
+            for b in bad {
+                rejected.push(format!("{}{}{}", pre, b, post));
+            }
+        }
+        let deep_valid = format!("$[?{}@.a{}]", "(".repeat(100), ")".repeat(100));
+        let probes: Vec<String> = ["$[?(@.a == 1)]", "$[?((@.a))]", "$[?!(@.a)]", "$[?(@.a) && (@.b == 'x')]", "$[?@[?@ > 1]]", "$[?count(@.*) > 1]", "$[?length(@.b) == 1]", "$..[?(@.a)]", "$[?@.a == 9007199254740991 || (@.b)]", "$[?(@.a == 1) || ((@.b == 'ab') && (!(@.a == 2)))]"]
+            .iter()
+            .map(|s| s.to_string())
+            .chain(std::iter::once(deep_valid))
+            .collect();
+        let doc: Value = serde_json::from_str(r#"[{"a":1,"b":"x"},{"a":2,"b":"ab"},{"a":[1,2],"b":"xabx"},[1,2,3],"ab",{"b":"x"}]"#).unwrap();
+        let storm_threads = ctx.threads.clamp(1, 4);
+        let per_thread = ctx.tier.pick(4000, 60_000);
+        let stats = Mutex::new((0u64, 0u64));
+        std::thread::scope(|s| {
+            for t in 0..storm_threads {
+                let (rejected, probes, doc, stats) = (&rejected, &probes, &doc, &stats);
+                s.spawn(move || {
+                    let first: Vec<Value> = probes.iter().map(|q| signature(q, doc)).collect();
+                    let mut accepted = 0u64;
+                    let mut checks = 0u64;
+                    for k in 0..per_thread {
+                        let q = &rejected[(k * 7 + t * 13) % rejected.len()];
+                        if let LibOutcome::Ok(_) = libapi::query_with_path(q, doc) {
+                            accepted += 1;
+                        }
+                        if k % 250 == 249 || k + 1 == per_thread {
+                            for (pi, p) in probes.iter().enumerate() {
+                                checks += 1;
+                                let now = signature(p, doc);
+                                if now != first[pi] {
+                                    ctx.violate(
+                                        &format!("after {} rejected queries on the same thread the valid query {:?} no longer returns what it returned before", k + 1, p.chars().take(120).collect::<String>()),
+                                        json!({"kind":"history","query": p, "rejected_before": k + 1, "first": first[pi], "now": now, "a_rejected_query": q}),
+                                    );
+                                    return;
+                                }
+                            }
+                        }
+                    }
+                    let mut st = stats.lock().unwrap();
+                    st.0 += per_thread as u64 - accepted;
+                    st.1 += checks;
+                });
+            }
+        });
+        let st = stats.lock().unwrap();
+        acc.count("rejection_storm_rejected_queries", st.0);
+        acc.count("rejection_storm_probe_checks", st.1);
+        acc.count("rejection_storm_distinct_rejected_texts", rejected.len() as u64);
+        acc.evaluations += st.0 + st.1;
+    }
+
+    // (b3) documents edited in place and short-lived documents of one shape: the same buffers
+    // hold other contents at the next call (same address, same byte length, other characters /
+    // other elements); every result is judged by the reference evaluator on the current contents
+    {
+        let long_a = "a".repeat(60);
+        let long_e = "\u{e9}".repeat(30);
+        let long_mix = format!("{}{}", "b".repeat(20), "\u{20ac}".repeat(13)); // 20 + 39 = 59 bytes + 1
+        let long_mix = format!("{}c", long_mix);
+        let texts = [long_a.clone(), long_e.clone(), long_mix.clone(), "x".repeat(60), "\u{1f600}".repeat(15), "a".repeat(48), "\u{e9}".repeat(24)];
+        let queries = [
+            "$[?length(@.title) == 60]", "$[?length(@.title) == 30]", "$[?length(@.title) > 33]", "$[?length(@.title) == 48 || length(@.title) == 15]", "$[?match(@.title, 'a+')]", "$[?search(@.title, '\u{e9}{30}')]", "$[?@.title == 'x']", "$[?@.title < 'b']",
+            "$[?count(@.tags[*]) == 3]", "$[?@.tags[0] == @.tags[-1]]", "$[?length(@.tags) == 3]", "$..title", "$[*].tags[?@ > 'a']",
+        ];
+        let edits = ctx.tier.pick(300, 6000);
+        let threads = ctx.threads.clamp(1, 4);
+        let stats = Mutex::new(0u64);
+        std::thread::scope(|s| {
+            for t in 0..threads {
+                let (texts, queries, stats) = (&texts, &queries, &stats);
+                s.spawn(move || {
+                    let mut r = Rng::stream(ctx.seed, 31_000 + t as u64);
+                    // thread 0 keeps to documents with a single long string (a one-entry memo is
+                    // then never displaced between two calls), the others to two of them
+                    let mk = |r: &mut Rng| -> Value {
+                        if t == 0 {
+                            json!([
+                                {"title": texts[r.below(texts.len() as u64) as usize].clone(), "tags": ["t1", "t2", "t1"]},
+                                {"title": "short", "tags": []}
+                            ])
+                        } else {
+                            json!([
+                                {"title": texts[r.below(texts.len() as u64) as usize].clone(), "tags": ["t1", "t2", "t1"]},
+                                {"title": texts[r.below(texts.len() as u64) as usize].clone(), "tags": ["u", "v", "w"]},
+                                {"title": "short", "tags": []}
+                            ])
+                        }
+                    };
+                    let mut doc = mk(&mut r);
+                    let mut judged = 0u64;
+                    for step in 0..edits {
+                        match step % 3 {
+                            // edit a string in place: same byte length, other characters
+                            0 => {
+                                let row = if t == 0 { 0 } else { r.below(2) as usize };
+                                let new = texts[r.below(texts.len() as u64) as usize].clone();
+                                if let Some(Value::String(sref)) = doc[row].get_mut("title") {
+                                    if sref.len() == new.len() {
+                                        sref.clear();
+                                        sref.push_str(&new);
+                                    } else {
+                                        *sref = new;
+                                    }
+                                }
+                                if let Some(Value::Array(tags)) = doc[row].get_mut("tags") {
+                                    let k = r.below(3) as usize;
+                                    if let Some(Value::String(tg)) = tags.get_mut(k) {
+                                        tg.clear();
+                                        tg.push_str(*r.pick(&["t1", "t2", "zz", "u"][..]));
+                                    }
+                                }
+                            }
+                            // drop the document and build one of the same shape (address reuse)
+                            1 => {
+                                doc = Value::Null;
+                                doc = mk(&mut r);
+                            }
+                            _ => {}
+                        }
+                        let d = Doc::from_value(doc.clone());
+                        // the library sees `doc` itself (the edited buffers), the reference its view
+                        for q in queries.iter() {
+                            let parsed = analyze(q);
+                            let ast = match &parsed.ast {
+                                Some(a) => a,
+                                None => continue,
+                            };
+                            let want: Vec<String> = match oracle::eval::eval_locs(ast, &d.j, oracle::eval::Dev::default()) {
+                                Ok((locs, fl, _)) if !(fl.u2 || fl.u3 || fl.u5) => locs.iter().map(|l| oracle::npath::render(l)).collect(),
+                                _ => continue,
+                            };
+                            let got: Vec<String> = match libapi::query_with_path(q, &doc) {
+                                LibOutcome::Ok(ns) => ns.iter().map(|n| n.1.clone()).collect(),
+                                o => vec![format!("<{}>", o.brief())],
+                            };
+                            judged += 1;
+                            if got != want {
+                                ctx.violate(
+                                    &format!("after {} in-place edits / rebuilds of the document, {:?} returns {:?} but the current contents give {:?}", step + 1, q, got, want),
+                                    json!({"kind":"history","query": q, "document_now": doc, "edits": step + 1}),
+                                );
+                                return;
+                            }
+                        }
+                    }
+                    *stats.lock().unwrap() += judged;
+                });
+            }
+        });
+        let j = *stats.lock().unwrap();
+        acc.count("in_place_edit_history_results_judged", j);
+        acc.evaluations += j;
     }
 
     // (c) schedules: threads share one parsed query and one document (mode A) or the document
